@@ -115,3 +115,37 @@ def connect_pair_serving(k, svc_a, svc_b, cfg_a=None, cfg_b=None, compress=(True
     if "cb" not in box:
         sim.block(lambda: "cb" in box or srv.state == core.DONE, 60, "wait-B-connect")
     return ca, box.get("cb"), ledger, srv
+
+
+class SeqCounter(object):
+    """Knob: a connection's request counter (a stand-in for ``itertools.count()``) that starts somewhere in its number space and, once
+    per run, skips ahead so that the next number equals a *recently issued* number plus 2**16, 2**31 or 2**32.  Skipping numbers is the
+    history in which that many requests were issued and completed in between; code whose numbers are unique for the life of a
+    connection cannot tell the difference, code that keeps them in a narrower field hands a number out twice while the earlier
+    request may still be outstanding."""
+
+    STARTS = (0, 0, 0, 2 ** 16 - 3, 2 ** 31 - 2, 2 ** 32 - 3, 2 ** 63 - 2)
+
+    def __init__(self, c):
+        self.n = c.pick(self.STARTS)
+        self.i = 0
+        self.recent = []
+        self.jump_at = (1 + c.draw(6)) if c.draw(3) == 0 else None
+        self.back = 1 + c.draw(3)
+        self.width = c.pick((16, 31, 32))
+        self.jumped = False
+
+    def __iter__(self):
+        return self
+
+    def __next__(self):
+        if self.jump_at is not None and self.i == self.jump_at and self.recent:
+            self.n = self.recent[-min(self.back, len(self.recent))] + 2 ** self.width
+            self.jumped = True
+        v = self.n
+        self.n += 1
+        self.i += 1
+        self.recent.append(v)
+        del self.recent[:-4]
+        return v
+    next = __next__
